@@ -39,8 +39,8 @@ theorem patches_only_appended (st : St) (items : List Item) (n : Bytes) :
 
 /-! ### a later file with an existing name -/
 
-/-- identical content (to the file of that name or to any of its renamed siblings `name_1 … name_count`):
-the item and the unnamed patches directly following it change nothing. -/
+/-- identical content (to the file of that name or to any file on its chain `name_1, name_2, …` of
+taken names, `siblings`): the item and the unnamed patches directly following it change nothing. -/
 theorem dup_dropped (calls : List (List Item)) (last : Bytes) (skip : Bool) (f : Item) (name : Bytes) (idx : Nat)
     (ups rest : List Item)
     (hn : f.name = some name) (hi : (after calls).index name = some idx) (hip : f.ip = [])
@@ -50,19 +50,20 @@ theorem dup_dropped (calls : List (List Item)) (last : Bytes) (skip : Bool) (f :
   feedLoop_dup _ last skip f name idx ups rest hn hi hip
     (siblings_valid (Inv.feedAll calls Inv.init) name idx hi) hd hu
 
-/-- different content: stored as a new file under `name_{count+1}`, the earlier files untouched,
-`count[name]` bumped, and `last` becomes the new name (its unnamed patches follow the renamed file). -/
+/-- different content from all of them: stored as a new file under the first name `name_k`, k ≥ 1, that
+the index does not know (so it cannot collide), the earlier files untouched, and `last` becomes the
+new name (its unnamed patches follow the renamed file). -/
 theorem conflict_renamed (calls : List (List Item)) (last : Bytes) (skip : Bool) (f : Item) (name : Bytes) (idx : Nat)
     (rest : List Item)
     (hn : f.name = some name) (hi : (after calls).index name = some idx) (hip : f.ip = [])
     (hd : ¬ ∃ i ∈ siblings (after calls) name idx, contentAt (after calls) i = some f.content) :
-    feedLoop (after calls) last skip (f :: rest) =
-      feedLoop (renameSt (after calls) name (sib name ((after calls).count name + 1)) f.content)
-        (sib name ((after calls).count name + 1)) false rest :=
-  feedLoop_conflict _ last skip f name idx rest hn hi hip
-    (siblings_valid (Inv.feedAll calls Inv.init) name idx hi) hd
+    ∃ k, 1 ≤ k ∧ (after calls).index (sib name k) = none ∧
+      (∀ j, 1 ≤ j → j < k → (after calls).index (sib name j) ≠ none) ∧
+      feedLoop (after calls) last skip (f :: rest) =
+        feedLoop (renameSt (after calls) name (sib name k) f.content) (sib name k) false rest :=
+  feedLoop_conflict _ (Inv.feedAll calls Inv.init) last skip f name idx rest hn hi hip hd
 
-/-- the positions compared above are those of files named `name` or `name_j`, all existing. -/
+/-- the positions compared above (the index chain) are those of files named `name` or `name_j`, all existing. -/
 theorem siblings_are_family (calls : List (List Item)) (name : Bytes) (idx : Nat)
     (hi : (after calls).index name = some idx) :
     ∀ i ∈ siblings (after calls) name idx, ∃ m c, (after calls).files[i]? = some (m, c) ∧ Fam name m :=
@@ -93,8 +94,10 @@ theorem feed_error_iff (st : St) (items : List Item) (hne : ∀ f ∈ items, f.n
 
 example : ∀ f ∈ [(⟨some [97], [], [88]⟩ : Item)], f.name ≠ some [] := by decide
 
-/-- no history makes Feed index `files` out of range. -/
-theorem feed_never_panics (calls : List (List Item)) : Outcome.panic ∉ outcomes St.init calls :=
+/-- no history makes Feed index `files` out of range, and the (unbounded) probe loop always
+terminates: it never needs more than `len(files) + 1` rounds. -/
+theorem feed_never_panics_or_hangs (calls : List (List Item)) :
+    Outcome.panic ∉ outcomes St.init calls ∧ Outcome.hang ∉ outcomes St.init calls :=
   outcomes_no_panic calls St.init Inv.init
 
 /-! ### nothing is lost -/
@@ -112,33 +115,22 @@ theorem nothing_lost (calls : List (List Item)) (items : List Item) (more : List
   rw [e]
   exact h1.mono (feedAll_files_prefix more _)
 
-/-! ### unique names
+/-! ### unique names -/
 
-The full statement
-    theorem names_unique (calls) : ((build cfg (after calls)).map (·.1)).Nodup
-is FALSE for the code as it is: the probe loop accepts `name_{count+1}` without looking it up in
-`index`, so a file submitted under that very name earlier is shadowed (`names_unique_false`).
-It holds when no submitted name has the shape of a renamed submitted name. -/
+/-- after every history the response names are pairwise distinct: a conflicting file is only ever
+stored under a name the index does not know, and the index knows every stored name.
+(False before /repo 54c21d0, where the loop trusted `count[name]`; see `old_witness_repaired`.) -/
+theorem names_unique (calls : List (List Item)) : ((build cfg (after calls)).map (·.1)).Nodup := by
+  rw [build_names]
+  exact (InvU.feedAll calls InvU.init).nodup
 
-theorem names_unique_partial (calls : List (List Item))
-    (h : noRenameShaped (histNames calls) (histLen calls) = true) :
-    ((build cfg (after calls)).map (·.1)).Nodup := names_nodup_of_nrs cfg calls h
-
-/-- the hypothesis is satisfiable, also by histories with conflicts: a.go:X, a.go:Y, b.go:X -/
-example : noRenameShaped (histNames [[⟨some [97, 46, 103, 111], [], [88]⟩, ⟨some [97, 46, 103, 111], [], [89]⟩,
-    ⟨some [98, 46, 103, 111], [], [88]⟩]]) 3 = true := by decide
-
-/-- witness `a.go:X, a_1.go:X, a.go:Y` (one call): the response holds `a.go, a_1.go, a_1.go`. -/
-def witness : List (List Item) :=
+/-- regression item: the history `a.go:X, a_1.go:X, a.go:Y` that used to answer `a.go, a_1.go, a_1.go`
+now answers `a.go, a_1.go, a_2.go` (also replayed on the implementation by every run). -/
+def oldWitness : List (List Item) :=
   [[⟨some [97, 46, 103, 111], [], [88]⟩, ⟨some [97, 95, 49, 46, 103, 111], [], [88]⟩, ⟨some [97, 46, 103, 111], [], [89]⟩]]
 
-theorem names_unique_false : ¬ ∀ calls : List (List Item), ((build cfg (after calls)).map (·.1)).Nodup := by
-  intro h
-  have h1 := h witness
-  have h2 : (build cfg (after witness)).map (·.1) =
-      [[97, 46, 103, 111], [97, 95, 49, 46, 103, 111], [97, 95, 49, 46, 103, 111]] := by decide
-  rw [h2] at h1
-  simp at h1
+theorem old_witness_repaired : (build cfg (after oldWitness)).map (·.1) =
+    [[97, 46, 103, 111], [97, 95, 49, 46, 103, 111], [97, 95, 50, 46, 103, 111]] := by decide
 
 /-! ### insertion points -/
 
